@@ -6,6 +6,7 @@ package main
 
 import (
 	"fmt"
+	"os"
 	"go/types"
 	"runtime"
 	"sort"
@@ -282,6 +283,9 @@ func ruleShapeFaults(cfg shapeConfig) ruleFunc {
 						}
 						it.pushFrame(s, fn, args, nil, nil)
 						it.Run(s)
+						if os.Getenv("ORBCHECK_LABEL") != "" {
+							fmt.Printf("DEBUG %s(%s): paths=%d finished=%d truncated=%d %v merged=%d faults=%d steps=%d\n", ShortKey(FuncKey(fn)), cb.label, it.Paths, len(it.Finished), it.Truncated, it.TruncWhy, it.Merged, len(it.Faults), it.Steps)
+						}
 						mu.Lock()
 						defer mu.Unlock()
 						res.paths += it.Paths
@@ -306,10 +310,17 @@ func ruleShapeFaults(cfg shapeConfig) ruleFunc {
 				}
 			}()
 		}
+		dbgEntry, dbgLabel := os.Getenv("ORBCHECK_ENTRY"), os.Getenv("ORBCHECK_LABEL")
 		for ei, fn := range entries {
+			if dbgEntry != "" && !strings.Contains(ShortKey(FuncKey(fn)), dbgEntry) {
+				continue
+			}
 			combos := p.combosFor(fn, c.Thorough(), cfg.override)
 			results[ei].combos = len(combos)
 			for _, cb := range combos {
+				if dbgLabel != "" && cb.label != dbgLabel {
+					continue
+				}
 				jobs <- job{ei, cb}
 			}
 		}
@@ -420,6 +431,8 @@ func ruleShapeFaults(cfg shapeConfig) ruleFunc {
 				tag := "free"
 				if t.Opq {
 					tag = "opaque"
+				} else if t.Der {
+					tag = "derived-float"
 				}
 				wit = append(wit, "branch ["+tag+"] "+t.Desc)
 			}
